@@ -905,6 +905,17 @@ void checkThreads(Monitor& m, const Opm::EclipseGrid& g, const std::string& form
         if (!(vh::reldiff(d, v[0][a]) <= 1e-14))
             m.viol("active-volume-index", fmt("%s: activeVolume()[%zu] = %.17g, getCellVolume(global %zu) = %.17g", form.c_str(), a, v[0][a], g.getGlobalIndex(a), d));
     }
+    // ... and getCellVolume() must give the same answers on an object whose cache HAS been filled (the shortcut through the cache
+    // is taken only there): every cell, active or not, against the object without cache
+    {
+        Opm::EclipseGrid c(g);
+        (void)c.activeVolume();
+        for (size_t gi = 0; gi < g.getCartesianSize(); ++gi) {
+            const double d = g.getCellVolume(gi), e = c.getCellVolume(gi);
+            if (!(vh::reldiff(d, e) <= 1e-14)) { m.viol("cell-volume-depends-on-cache", fmt("%s: getCellVolume(%zu) = %.17g before activeVolume() was called, %.17g after", form.c_str(), gi, d, e)); break; }
+        }
+        m.count("cell_volume_comparisons_with_filled_cache", (long)g.getCartesianSize());
+    }
     m.count("thread_volume_comparisons", (long)v[0].size() * 2);
     if (fullTeams) m.count("thread_volume_comparisons_with_teams_of_1_4_16", (long)v[0].size() * 2);
     m.count("active_volume_index_comparisons", (long)v[0].size());
